@@ -1116,7 +1116,7 @@ namespace avel {
         auto table_offset = masks128_table.size() / 2 - avel::min(vec2x64f::width, n) * sizeof(double);
         auto mask = _mm_loadu_si128(reinterpret_cast<const __m128i*>(masks128_table.data() + table_offset));
 
-        _mm_maskmoveu_si128(
+        masked_store_bytes(
             _mm_castpd_si128(decay(v)),
             mask,
             reinterpret_cast<char*>(ptr)
